@@ -1078,6 +1078,10 @@ func (x *Exec) frameGoals(st *State, only map[string]bool) ([]frameGoal, bool) {
 
 // ownership obligations (filled in by owner declarations)
 func (x *Exec) ownerCheck(st *State, in ssa.Instruction, lv *LValue, write bool) {
+	if lv.kind == "structref" && lv.ost != nil {
+		// a whole struct-valued field (e.g. a time.Time) read or written through its address
+		lv = &LValue{kind: "field", st: lv.ost, field: lv.ofield, base: lv.obase}
+	}
 	if lv.kind != "field" {
 		return
 	}
